@@ -6,6 +6,9 @@
 //!                            q:<bo>:<preset> (partial write, force_finish) -> q:<ctx.serial()>:<wire serial>:<flag>
 //!                            f:<bo>:<preset>:<c|W> (closed attached descriptor: EBADF) -> f:<ctx.serial()|->
 //!                            g (peer shut down; later sends give io:<ctx.serial()|->)
+//!   hist <op> ...      op := r:<c|W> (the message OBJECT of the last s / z / r operation is sent again, as s:..:<c|W>; answered like s)
+//!                            every s / r token ends in :mut<serial|-> when the caller's message carries another dynheader.serial
+//!                            after the call than before it (the caller preset <preset>, the library must not write there)
 //!   hist <op> ...      op := a | p:<l|B>:<preset|->:<g|b>:<k> (send, partial write, into_progress, k allocations, resume, finish) | x<n> (n allocations, prints the last) | s:<l|B>:<preset|->:<g|b>:<c|W>   (c: send_message + write_all, W: send_message_write_all;
 //!                                                              b: the message has an invalid member name -> marshal error)
 //!     -> a:<serial> | s:<reported>:<serial in bytes 8..12 read at the peer>:<byte order flag read at the peer> | e
@@ -73,6 +76,8 @@ fn hist(ops: &[&str], use_rpc: bool) -> String {
         nix::sys::socket::setsockopt(&b, nix::sys::socket::sockopt::SndBuf, &4608usize).unwrap();
     }
     let mut out = Vec::new();
+    // the message object of the last s / z / r operation and its <bo>, <preset>, <g|b> as the caller made it
+    let mut prev: Option<(MarshalledMessage, [&str; 3])> = None;
     for o in ops {
         if o.is_empty() {
             continue;
@@ -113,19 +118,39 @@ fn hist(ops: &[&str], use_rpc: bool) -> String {
             }
             continue;
         }
-        let f: Vec<&str> = o.split(':').collect();
-        let bo = if f[1] == "B" { ByteOrder::BigEndian } else { ByteOrder::LittleEndian };
-        let mut msg = MarshalledMessage {
-            body: MarshalledMessageBody::with_byteorder(bo),
-            dynheader: DynamicHeader::default(),
-            typ: MessageType::Call,
-            flags: 0,
+        let f0: Vec<&str> = o.split(':').collect();
+        // r:<api>: the same message object again (nothing is rebuilt, nothing is reset)
+        let (f, reused): (Vec<&str>, Option<MarshalledMessage>) = if f0[0] == "r" {
+            match prev.take() {
+                Some((m, pf)) => (vec!["s", pf[0], pf[1], pf[2], f0[1]], Some(m)),
+                None => {
+                    out.push("NOPREV".to_string());
+                    break;
+                }
+            }
+        } else {
+            (f0, None)
         };
-        msg.dynheader.member = Some(if f.get(3) == Some(&"b") { "not a member!".to_string() } else { "Member".to_string() });
-        msg.dynheader.object = Some("/obj".to_string());
-        if f[2] != "-" {
-            msg.dynheader.serial = NonZeroU32::new(f[2].parse().unwrap());
-        }
+        let bo = if f[1] == "B" { ByteOrder::BigEndian } else { ByteOrder::LittleEndian };
+        let mut msg = match reused {
+            Some(m) => m,
+            None => {
+                let mut msg = MarshalledMessage {
+                    body: MarshalledMessageBody::with_byteorder(bo),
+                    dynheader: DynamicHeader::default(),
+                    typ: MessageType::Call,
+                    flags: 0,
+                };
+                msg.dynheader.member = Some(if f.get(3) == Some(&"b") { "not a member!".to_string() } else { "Member".to_string() });
+                msg.dynheader.object = Some("/obj".to_string());
+                if f[2] != "-" {
+                    msg.dynheader.serial = NonZeroU32::new(f[2].parse().unwrap());
+                }
+                msg
+            }
+        };
+        // what the caller put into the message; compared with the message after the call
+        let caller_preset: Option<NonZeroU32> = if f[2] == "-" { None } else { NonZeroU32::new(f[2].parse().unwrap()) };
         if f[0] == "z" {
             // the socket is full: the first sendmsg is refused at zero bytes, the context is dropped
             let sfd = { use std::os::fd::AsRawFd; rpc.conn_mut().send.as_raw_fd() };
@@ -165,6 +190,11 @@ fn hist(ops: &[&str], use_rpc: bool) -> String {
             if out.last().map(|t| t == "NOZERO").unwrap_or(false) {
                 break;
             }
+            if msg.dynheader.serial != caller_preset {
+                let t = out.pop().unwrap();
+                out.push(format!("{}:mut{}", t, show_on(&msg.dynheader.serial)));
+            }
+            prev = Some((msg, [f[1], f[2], "g"]));
             continue;
         }
         if f[0] == "q" {
@@ -331,10 +361,14 @@ fn hist(ops: &[&str], use_rpc: bool) -> String {
                 break;
             }
         };
+        // the caller-visible preset after the call
+        let mutated = if msg.dynheader.serial != caller_preset { format!(":mut{}", show_on(&msg.dynheader.serial)) } else { String::new() };
+        let kept = [f[1], f[2], f[3]];
+        prev = Some((msg, kept));
         let (reported, ctx_serial) = match res {
             Ok((s, c)) => (Some(s), c),
             Err((true, c)) => {
-                out.push(format!("io:{}", c.map(|c| c.get().to_string()).unwrap_or("-".into())));
+                out.push(format!("io:{}{}", c.map(|c| c.get().to_string()).unwrap_or("-".into()), mutated));
                 continue;
             }
             Err((false, _)) => (None, None),
@@ -348,9 +382,10 @@ fn hist(ops: &[&str], use_rpc: bool) -> String {
                         t.push_str(&format!(":ctx{}", c.get()));
                     }
                 }
+                t.push_str(&mutated);
                 out.push(t);
             }
-            None => out.push("e".to_string()),
+            None => out.push(format!("e{}", mutated)),
         }
     }
     out.join(" ")
